@@ -224,8 +224,9 @@ Definition toy_to_core (a : N) : N := 3 * a + 1.
 Definition toy_link (c : N) (deps : list N) : N := fold_left (fun acc d => 7 * acc + d) deps (5 * c + 2).
 Definition toy_si (mode a c : N) : N := 11 * a + 13 * c + mode.
 
-(* 0 source, 1 AST, 2 parser.Result, 3 proto, 4 proto that already carries source info *)
-Inductive form := FSource | FAst | FRes | FProto | FProtoSI.
+(* source, AST, parser.Result, parser.Result without AST (parser.ResultWithoutAST), proto, proto that already
+   carries source info *)
+Inductive form := FSource | FAst | FRes | FResNoAst | FProto | FProtoSI.
 
 Record obs := mkfobs { ob_changed : bool;      (* did the supplied object change *)
                        ob_has_si : bool;       (* does the compiled file carry source info *)
@@ -241,6 +242,8 @@ Definition supply (h : heap N N N) (fm : form) (s mode : N) : input N * list id 
   | FRes => let (ia, h1) := alloc N N N h (OAst N N N a) in
             let (ip, h2) := alloc N N N h1 (OProto N N N (toy_to_core a) None) in
             let (ir, h3) := alloc N N N h2 (ORes N N N (Some ia) ip) in (IRes N ir, [ia; ip; ir], h3)
+  | FResNoAst => let (ip, h1) := alloc N N N h (OProto N N N (toy_to_core a) None) in
+                 let (ir, h2) := alloc N N N h1 (ORes N N N None ip) in (IRes N ir, [ip; ir], h2)
   | FProto => let (ip, h1) := alloc N N N h (OProto N N N (toy_to_core a) None) in (IProto N ip, [ip], h1)
   | FProtoSI =>
     (* the source info an all-source compilation produces is attached up front; the linked content it
